@@ -140,3 +140,56 @@ V("C03", "twin-np.array-copy", T, "            xyz = xyz.copy()\n            tim
 V("C03", "twin-reorder-assignments", T, "        xyz = self.xyz[key]\n        time = self.time[key]", "        time = self.time[key]\n        xyz = self.xyz[key]", None)
 V("C03", "twin-atom_slice-reset-via-setter", T, "            self._xyz = xyz\n            # the cached traces were computed for the full atom set\n            self._rmsd_traces = None\n",
   "            self.xyz = xyz\n", None)
+
+# ---------------------------------------------------------------- C04
+TP = "mdtraj/core/topology.py"
+V("C04", "join-omits-segment_id", TP, "                r = out.add_residue(residue.name, c, out_resSeq, residue.segment_id)",
+  "                r = out.add_residue(residue.name, c, out_resSeq)", "C04-R1", "Topology.join")
+V("C04", "join-bonds-unmapped", TP, """            out.add_bond(
+                atom_mapping[a1],
+                atom_mapping[a2],
+                type=bond.type,
+                order=bond.order,
+            )
+
+        return out
+
+    def to_fasta""", """            out.add_bond(
+                a1,
+                a2,
+                type=bond.type,
+                order=bond.order,
+            )
+
+        return out
+
+    def to_fasta""", "C04-R2", "Topology.join")
+V("C04", "copy-bonds-unmapped-again", TP, "out.add_bond(atom_mapping[a1], atom_mapping[a2], type=bond.type, order=bond.order)",
+  "out.add_bond(a1, a2, type=bond.type, order=bond.order)", "C04-R2", "Topology.copy")
+V("C04", "copy-drops-bond-order", TP, "out.add_bond(atom_mapping[a1], atom_mapping[a2], type=bond.type, order=bond.order)",
+  "out.add_bond(atom_mapping[a1], atom_mapping[a2], type=bond.type)", "C04-R1", "Topology.copy")
+V("C04", "copy-chain-id-dropped", TP, "            c = out.add_chain(chain.chain_id)\n            for residue in chain.residues:\n                r = out.add_residue(residue.name, c, residue.resSeq, residue.segment_id)\n                for atom in residue.atoms:\n                    atom_mapping",
+  "            c = out.add_chain()\n            for residue in chain.residues:\n                r = out.add_residue(residue.name, c, residue.resSeq, residue.segment_id)\n                for atom in residue.atoms:\n                    atom_mapping", "C04-R1", "Topology.copy")
+V("C04", "subset-serial-from-index", TP, "                        serial = atom.serial\n", "                        serial = atom.index\n", "C04-R1", "_topology_from_subset")
+V("C04", "subset-resseq-or-default", TP, """            resSeq = getattr(residue, "resSeq", None)
+            if resSeq is None:
+                resSeq = residue.index""", """            resSeq = getattr(residue, "resSeq", None) or residue.index""", "C04-R6", "_topology_from_subset")
+V("C04", "atom-hash-adds-serial", TP, '        """A quick comparison."""\n        return self.index', '        """A quick comparison."""\n        return hash((self.index, self.serial))',
+  "C04-R3")
+V("C04", "residue-hash-resSeq-again", TP, "        return hash((self.name, self.index))", "        return hash((self.name, self.index, self.resSeq))", "C04-R3")
+V("C04", "delete-atom-forgets-counter", TP, "        self._atoms.remove(a)\n        self._numAtoms -= 1", "        self._atoms.remove(a)", "C04-R5", "Topology.delete_atom_by_index")
+V("C04", "insert-atom-renumber-off-by-one", TP, "            for i in range(index, len(self._atoms)):\n                self._atoms[i].index += 1",
+  "            for i in range(index + 1, len(self._atoms)):\n                self._atoms[i].index += 1", "C04-R5", "Topology.insert_atom")
+V("C04", "hdf5-reader-wrong-key", "mdtraj/formats/hdf5.py", 'segment_id = residue_dict["segmentID"]', 'segment_id = residue_dict["segment_id"]', "C04-R1", "HDF5TrajectoryFile.topology")
+V("C04", "hdf5-writer-drops-resSeq", "mdtraj/formats/hdf5.py", '                        "resSeq": int(residue.resSeq),\n', "", "C04-R1", "HDF5TrajectoryFile.topology")
+V("C04", "dataframe-serial-column-from-index", TP, "                atom.serial,\n                atom.name,", "                atom.index,\n                atom.name,", "C04-R1", "Topology.to_dataframe")
+V("C04", "pdb-footer-zero-based-again", "mdtraj/formats/pdb/pdbfile.py", "            nextAtomIndex = 1\n", "            nextAtomIndex = 0\n", "C04-R7")
+V("C04", "pdb-footer-ignores-serial", "mdtraj/formats/pdb/pdbfile.py", """                    if atom.serial is not None and len(self._last_topology._chains) < 2:
+                        atomIndex[atom] = atom.serial
+                    else:
+                        atomIndex[atom] = nextAtomIndex""", """                    atomIndex[atom] = nextAtomIndex""", "C04-R7")
+V("C04", "pdb-reader-serial-dropped", "mdtraj/formats/pdb/pdbfile.py", "                            r,\n                            serial=atom.serial_number,\n", "                            r,\n", "C04-R1", "_read_models")
+V("C04", "twin-keyword-args", TP, "                r = out.add_residue(residue.name, c, out_resSeq, residue.segment_id)",
+  "                r = out.add_residue(name=residue.name, chain=c, resSeq=out_resSeq, segment_id=residue.segment_id)", None)
+V("C04", "twin-local-alias", TP, "            c = out.add_chain(chain.chain_id)\n            for residue in chain.residues:\n                if keep_resSeq:",
+  "            cid = chain.chain_id\n            c = out.add_chain(cid)\n            for residue in chain.residues:\n                if keep_resSeq:", None)
